@@ -95,7 +95,7 @@ func SortedMapKeys(m reflect.Value) []reflect.Value {
 		case Less(b, a):
 			return false
 		}
-		return fmt.Sprintf("%T %v", a, a) < fmt.Sprintf("%T %v", b, b)
+		return fmt.Sprintf("%T %v", a, Plain(a)) < fmt.Sprintf("%T %v", b, Plain(b))
 	})
 	return keys
 }
